@@ -60,19 +60,26 @@ class RaSuite(Suite):
         if t3() < 0.5:
             d = []
             if rng.random() < 0.7:
-                d.append("addresses: %s" % rng.choice(["null", "[]", "[2001:db8::53]", '["$self6", 2001:db8::54]', "[%s]" % ", ".join("2001:db8::%x" % (i + 1) for i in range(rng.choice([3, 8])))]))
+                # 127 addresses fill one RDNSS option (length octet 255); more need further options
+                d.append("addresses: %s" % rng.choice(["null", "[]", "[2001:db8::53]", '["$self6", 2001:db8::54]', "[%s]" % ", ".join("2001:db8::%x" % (i + 1) for i in range(rng.choice([3, 8]))),
+                                                      "[%s]" % ", ".join("2001:db8::%x" % (i + 1) for i in range(rng.choice([126, 127, 128, 130, 254, 255, 300])))]))
             if rng.random() < 0.6:
                 d.append("lifetime: %s" % rng.choice(["null", "%ds" % self.dur(rng, 2 ** 32 - 1)]))
             intf.append("dns-servers: { %s }" % ", ".join(d))
         if t3() < 0.5:
             d = []
             if rng.random() < 0.7:
-                d.append("domains: %s" % rng.choice(["null", "[]", "[example.org]", "[a.example, b.example, lan]", "[%s]" % ("y" * rng.choice([1, 62, 63]) + ".test")]))
+                # a DNSSL option holds at most 2032 octets of names: lists around and beyond that must not wrap its length
+                many = "[%s]" % ", ".join("d%03d.%s.example" % (i, "z" * 50) for i in range(rng.choice([30, 31, 32, 33, 34, 40, 70])))
+                d.append("domains: %s" % rng.choice(["null", "[]", "[example.org]", "[a.example, b.example, lan]", "[%s]" % ("y" * rng.choice([1, 62, 63]) + ".test"), many]))
             if rng.random() < 0.6:
                 d.append("lifetime: %s" % rng.choice(["null", "%ds" % self.dur(rng, 2 ** 32 - 1)]))
             intf.append("dns-search: { %s }" % ", ".join(d))
         if t3() < 0.4:
-            intf.append("captive-portal: %s" % rng.choice(["null", '"http://example.com/"', '"u"', '"%s"' % ("http://e.example/" + "q" * rng.choice([0, 1, 5, 6, 7, 100, 223]))]))
+            # the option holds at most 2038 octets of URL, and the URL ends at the first NUL
+            intf.append("captive-portal: %s" % rng.choice(["null", '"http://example.com/"', '"u"', '"%s"' % ("http://e.example/" + "q" * rng.choice([0, 1, 5, 6, 7, 100, 223])),
+                                                           '"%s"' % ("http://e.example/" + "q" * rng.choice([2012, 2013, 2020, 2021, 2022, 2030, 2100, 4100])),
+                                                           '"http://e.example/a\\0b"']))
         if t3() < 0.5:
             ln = rng.choice([96, 96, 64, 56, 48, 40, 32, 32, 64, 96, 33, 0, 24, 128, 100])
             p = (0x0064ff9b << 96) | (rng.randrange(2 ** 32) << 64 if rng.random() < 0.3 else 0)
